@@ -156,6 +156,9 @@ func (e *Explorer) worker(id int) {
 	}
 	in := NewInterp(e.prog, solver, e.cfg)
 	in.thorough = e.thorough
+	if e.cfg.Debug {
+		in.forkSites = map[string]int{}
+	}
 	for {
 		it, ok := e.pop()
 		if !ok {
@@ -167,6 +170,9 @@ func (e *Explorer) worker(id int) {
 	e.mu.Lock()
 	for k, v := range in.warnings {
 		e.Warnings[k] += v
+	}
+	for k, v := range in.forkSites {
+		e.Warnings["fork-site: "+k] += v
 	}
 	e.TotalQueries += solver.Queries
 	e.TotalSolverTime += solver.Time
